@@ -5,5 +5,5 @@ S=$1; shift
 T=$(mktemp -d /tmp/dashu-wp-XXXX)
 rsync -a --exclude target --exclude .git /repo/ $T/repo/
 (cd $T/repo && patch -p1 -s -i /verif/seeded/$S/patch.diff)
-for c in "$@"; do DASHU_REPO=$T/repo VERIF_OUT=$T/out /verif/check $c --tier quick 2>&1 | grep -v "^VIOLATION\|^      key" | grep "^  \[\|quick:\|Error\|Traceback\|File \"/verif" | cut -c1-400; done
+for c in "$@"; do DASHU_REPO=$T/repo VERIF_OUT=$T/out VERIF_CACHE=$T/cache /verif/check $c --tier quick 2>&1 | grep -v "^VIOLATION\|^      key" | grep "^  \[\|quick:\|Error\|Traceback\|File \"/verif" | cut -c1-400; done
 rm -rf $T
